@@ -14,7 +14,7 @@ if [ ! -d "$(go env GOMODCACHE)/github.com/notaryproject" ]; then
   done
 fi
 (cd extract && go run . -repo "$REPO" -out ../lean/NotationModel/Generated)
-props=""; for i in $(seq -w 1 20); do props="$props NotationModel.Props.C$i"; done
+props=""; for f in lean/NotationModel/Props/C*.lean; do props="$props NotationModel.Props.$(basename $f .lean)"; done
 (cd lean && lake build driver NotationModel $props 2>&1 | tail -5; exit ${PIPESTATUS[0]})
 tmp=$(mktemp -d)
 sed "s#^replace github.com/notaryproject/notation-go => .*#replace github.com/notaryproject/notation-go => $REPO#" harness/go.mod > "$tmp/go.mod"
